@@ -382,8 +382,43 @@ func c17SplitRun(c c17SplitCase, res *WRes) {
 	}
 }
 
+// c17RequestObjectPush: "refuses requests that themselves contain a request_uri" also where the request_uri travels as a
+// claim of a signed request object inside the pushed request.
+type c17ROCase struct {
+	Claim bool `json:"request_object_has_request_uri_claim"`
+}
+
+func c17RORun(c c17ROCase, res *WRes) {
+	w := NewWorld(Profile{})
+	oc := &fosite.DefaultOpenIDConnectClient{DefaultClient: w.AddClient("O", "secret-O", false), TokenEndpointAuthMethod: "client_secret_basic", RequestObjectSigningAlgorithm: "RS256", JSONWebKeys: jwks(pubJWK(rsaKey("rsa1"), "rk", "RS256"))}
+	oc.DefaultClient.RedirectURIs = []string{"https://O.example/cb"}
+	w.Mem.Clients["O"] = oc
+	claims := map[string]any{"iss": "O", "aud": IssuerURL, "client_id": "O", "response_type": "code", "redirect_uri": "https://O.example/cb", "scope": "openid a", "state": "ro-state-0123456789", "nonce": "ro-nonce-0123456789"}
+	if c.Claim {
+		claims["request_uri"] = "urn:ietf:params:oauth:request_uri:0123456789abcdef"
+	}
+	form := url.Values{"client_id": {"O"}, "redirect_uri": {"https://O.example/cb"}, "state": {"pushed-state-0-12345"}, "response_type": {"code"}, "scope": {"openid a"}, "nonce": {"pushed-nonce-12345"},
+		"request": {signJWT(rsaKey("rsa1"), "RS256", "rk", claims, nil)}}
+	before := len(w.Mem.PARSessions)
+	o := w.PAR(form, w.AuthFor("O"))
+	res.Trans++
+	accepted := o.Str("request_uri") != "" || len(w.Mem.PARSessions) > before
+	res.class(fmt.Sprintf("push-with-request-object:request_uri-claim=%v:accepted=%v", c.Claim, accepted))
+	res.distinct(fmt.Sprintf("ro%+v", c))
+	if c.Claim && accepted {
+		res.violate(Violation{Property: "C17", Fingerprint: "C17/push-containing-request_uri-accepted/inside-request-object", What: "a pushed request whose request object carries a request_uri claim was accepted", Engine: "c17ro", Case: c, Expected: "invalid_request", Observed: o.JSON})
+	}
+	if !c.Claim && !accepted {
+		res.note("sanity:push-with-plain-request-object-refused:" + o.Class())
+	}
+}
+
 func c17Split(r *Run) {
 	res := &WRes{}
+	for _, cl := range []bool{false, true} {
+		c17RORun(c17ROCase{Claim: cl}, res)
+		res.Evals++
+	}
 	for _, enf := range []bool{false, true} {
 		for _, sp := range []bool{false, true} {
 			c17SplitRun(c17SplitCase{Enforced: enf, Split: sp}, res)
@@ -465,6 +500,15 @@ func init() {
 		}
 		res := &WRes{}
 		c17Run(c, res)
+		return res.Viol, nil
+	}
+	replayFns["c17ro"] = func(raw json.RawMessage) ([]Violation, error) {
+		var c c17ROCase
+		if err := json.Unmarshal(raw, &c); err != nil {
+			return nil, err
+		}
+		res := &WRes{}
+		c17RORun(c, res)
 		return res.Viol, nil
 	}
 	replayFns["c17split"] = func(raw json.RawMessage) ([]Violation, error) {
